@@ -7,6 +7,8 @@ import (
 	"sync/atomic"
 
 	wire "github.com/jeroenrinzema/psql-wire"
+	"github.com/jeroenrinzema/psql-wire/codes"
+	psqlerr "github.com/jeroenrinzema/psql-wire/errors"
 
 	"verifharness/core"
 	"verifharness/hs"
@@ -63,7 +65,23 @@ func (ch c19) server(cfg c19cfg) *hs.Env {
 				}
 			}
 			if cfg.FailAt == i {
-				return ctx, errors.New("middleware refuses the session")
+				// whatever severity or code the error carries, a middleware error ends the connection
+				err := errors.New("middleware refuses the session")
+				switch (cfg.N + i) % 7 {
+				case 1:
+					return ctx, psqlerr.WithSeverity(err, psqlerr.LevelWarning)
+				case 2:
+					return ctx, psqlerr.WithSeverity(psqlerr.WithCode(err, codes.Warning), psqlerr.LevelNotice)
+				case 3:
+					return ctx, psqlerr.WithSeverity(err, psqlerr.LevelInfo)
+				case 4:
+					return ctx, psqlerr.WithSeverity(err, psqlerr.LevelLog)
+				case 5:
+					return ctx, psqlerr.WithSeverity(psqlerr.WithHint(err, "try later"), psqlerr.LevelDebug)
+				case 6:
+					return ctx, psqlerr.WithSeverity(err, psqlerr.LevelFatal)
+				}
+				return ctx, err
 			}
 			return context.WithValue(ctx, c19key(i), i), nil
 		}))
@@ -236,6 +254,10 @@ func (ch c19) runConn(c *core.Ctx, env *hs.Env, cfg c19cfg, ending string, rng *
 		for _, m := range msgs {
 			if m.T == 'Z' {
 				viol("middleware-error", "ReadyForQuery sent although a middleware failed", pg.Kinds(msgs))
+				return
+			}
+			if m.T != 'R' && m.T != 'S' && m.T != 'E' {
+				viol("middleware-error", "unexpected message while a middleware failed", pg.Kinds(msgs))
 				return
 			}
 		}
